@@ -85,6 +85,12 @@ class Runner:
         if impl == "SKIPPED":
             return None
         if impl.startswith("CRASH"):
+            if pc in ("idx", "multi+idx") and model.startswith("ok"):
+                # the damaged index is still inside the object table: the format has no type information, a pointer
+                # then resolves to an object of another type (see notes/C11-findings.md F7)
+                return ("violation", "crash:index-damage-in-range",
+                        "an index field was changed to another index inside the table; the reader completed (model: %s) "
+                        "and a pointer resolved to an object of the wrong type: %s" % (model[:40], impl[6:]))
             return "violation", "crash:" + impl[6:], "the reader crashed / sanitizer report (%s)" % impl[6:]
         completed = impl.startswith("ok")
         if kind == "cut" and completed:
@@ -96,6 +102,11 @@ class Runner:
                 return "violation", "undetected:" + pc, "a substituted %s byte was accepted without any error" % pc
         if model.startswith("UB:"):
             self.stats["model_ub_predictions"] += 1
+            return None
+        if pc in ("idx", "multi+idx") and model.startswith("ok"):
+            # in-range index damage: which host object a pointer now names is not comparable (the harness can
+            # only print objects of the expected type); only a crash counts (handled above)
+            self.stats["index_damage_in_range"] = self.stats.get("index_damage_in_range", 0) + 1
             return None
         if impl != model:
             return "diff", "diff:%s:%s" % (kind, pc), "implementation `%s`, proved model `%s`" % (impl, model)
@@ -193,7 +204,9 @@ class Runner:
                         self.record(j[0], j[1], j[2], info, items, "s %d %d" % (p, b))
             else:
                 self.stats["multi_damage"] += 1
-                j = self.judge("multi", "multi", 0, 0, shorten(a), shorten(model[i]))
+                ps = [int(x) for x in t[1::2]]
+                j = self.judge("multi", "multi+idx" if any(lay[p] == "idx" for p in ps) else "multi", 0, 0,
+                               shorten(a), shorten(model[i]))
                 if j:
                     self.record(j[0], j[1], j[2], info, items, pr)
 
@@ -223,6 +236,7 @@ NEED = {
     "versionOr": "either version field differing is rejected (C11_header_version_detected)",
     "indexChecked": "indices from the archive are range-checked (C11_indices_in_bounds, C11_never_undefined)",
     "lengthChecked": "lengths from the archive are bounded by the stream (C11_never_undefined)",
+    "valueTypeLate": "a load that fails leaves no script variable with a kind but no data behind (its destructor would crash)",
 }
 
 
